@@ -48,8 +48,8 @@ extern size_t carquet_zstd_compress_bound(size_t src_size);
 
 typedef struct carquet_page_writer {
     carquet_buffer_t values_buffer;      /* Encoded values */
-    carquet_buffer_t def_levels_buffer;  /* Definition levels (RLE) */
-    carquet_buffer_t rep_levels_buffer;  /* Repetition levels (RLE) */
+    carquet_buffer_t def_levels_buffer;  /* Definition levels of the page (raw int16_t, RLE-encoded at finalize) */
+    carquet_buffer_t rep_levels_buffer;  /* Repetition levels of the page (raw int16_t, RLE-encoded at finalize) */
     carquet_buffer_t page_buffer;        /* Final page with header */
 
     carquet_physical_type_t type;
@@ -311,19 +311,22 @@ carquet_status_t carquet_page_writer_add_values(
         writer->num_nulls += (num_values - num_non_null);
     }
 
-    /* Encode definition levels */
+    /* Collect the levels.  A data page holds ONE length-prefixed RLE block per
+     * level kind, so the levels of all batches that land in this page are
+     * encoded together when the page is finalized. */
     if (writer->max_def_level > 0 && def_levels) {
-        carquet_status_t lstatus = encode_levels(def_levels, num_values, writer->max_def_level,
-                                                 &writer->def_levels_buffer);
+        carquet_status_t lstatus = carquet_buffer_append(
+            &writer->def_levels_buffer, def_levels,
+            (size_t)num_values * sizeof(int16_t));
         if (lstatus != CARQUET_OK) {
             return lstatus;
         }
     }
 
-    /* Encode repetition levels */
     if (writer->max_rep_level > 0 && rep_levels) {
-        carquet_status_t lstatus = encode_levels(rep_levels, num_values, writer->max_rep_level,
-                                                 &writer->rep_levels_buffer);
+        carquet_status_t lstatus = carquet_buffer_append(
+            &writer->rep_levels_buffer, rep_levels,
+            (size_t)num_values * sizeof(int16_t));
         if (lstatus != CARQUET_OK) {
             return lstatus;
         }
@@ -498,15 +501,15 @@ carquet_status_t carquet_page_writer_finalize(
     carquet_status_t status = CARQUET_OK;
 
     if (writer->rep_levels_buffer.size > 0) {
-        status = carquet_buffer_append(&uncompressed,
-                                        writer->rep_levels_buffer.data,
-                                        writer->rep_levels_buffer.size);
+        status = encode_levels((const int16_t*)writer->rep_levels_buffer.data,
+                               (int64_t)(writer->rep_levels_buffer.size / sizeof(int16_t)),
+                               writer->max_rep_level, &uncompressed);
     }
 
     if (status == CARQUET_OK && writer->def_levels_buffer.size > 0) {
-        status = carquet_buffer_append(&uncompressed,
-                                        writer->def_levels_buffer.data,
-                                        writer->def_levels_buffer.size);
+        status = encode_levels((const int16_t*)writer->def_levels_buffer.data,
+                               (int64_t)(writer->def_levels_buffer.size / sizeof(int16_t)),
+                               writer->max_def_level, &uncompressed);
     }
 
     if (status == CARQUET_OK) {
@@ -631,11 +634,19 @@ carquet_status_t carquet_page_writer_finalize(
     return CARQUET_OK;
 }
 
+/* Size estimate of one level block: 4-byte length prefix + the levels bit-packed */
+static size_t estimated_levels_size(const carquet_buffer_t* raw_levels, int16_t max_level) {
+    size_t count = raw_levels->size / sizeof(int16_t);
+    if (count == 0) return 0;
+    return 4 + (count * (size_t)bit_width_for_max(max_level) + 7) / 8;
+}
+
 size_t carquet_page_writer_estimated_size(const carquet_page_writer_t* writer) {
     if (!writer) return 0;
     return writer->values_buffer.size +
-           writer->def_levels_buffer.size +
-           writer->rep_levels_buffer.size + 64;  /* Header overhead */
+           estimated_levels_size(&writer->def_levels_buffer, writer->max_def_level) +
+           estimated_levels_size(&writer->rep_levels_buffer, writer->max_rep_level) +
+           64;  /* Header overhead */
 }
 
 int64_t carquet_page_writer_num_values(const carquet_page_writer_t* writer) {
